@@ -240,6 +240,10 @@ pub fn exec_caught<E: Engine>(e: &E, sc: &E::Sc, stats: &mut Stats) -> Option<(V
     // every run starts with identity keys; an engine that varies them installs its style itself
     crate::keys::set_style(0);
     let r = exec_caught_inner(e, sc, stats);
+    stats.inc(&format!("runs_with_keys_{}", crate::keys::kind_name()));
+    if crate::keys::nodes_born_elsewhere() {
+        stats.inc("runs_with_nodes_created_on_threads_of_their_own_where_sync");
+    }
     let r = match (r, crate::keys::describe()) {
         (Some((mut v, sc)), Some(d)) => {
             v.detail.push_str(&format!(" [nodes are named by index; keys of this run: {d}]"));
